@@ -10,13 +10,14 @@ void radix_val_ctor(void *p); // a value object came into existence at p / its d
 void radix_val_dtor(void *p);
 // instrumented glue
 // mode 0: value type with a user-provided constructor (key, seq, check) and destructor, both reporting to the harness;
-// mode 1: the plain aggregate RVal, inserted WITHOUT constructor arguments (value-initialised), filled in by the user afterwards
+// mode 1: the plain aggregate RVal, inserted WITHOUT constructor arguments (value-initialised), filled in by the user afterwards;
+// mode 2: the value type is a raw pointer (RVal *) to a record the user owns (rec); find() returns the address of that pointer
 size_t sut_tree_size();
 void sut_tree_construct(void *mem, int mode);
 void sut_tree_destroy(void *mem);
-void *sut_find(void *tree, uint64_t key);
-void *sut_find_or_insert(void *tree, uint64_t key, uint64_t seq, int *inserted);
-void *sut_insert(void *tree, uint64_t key, uint64_t seq);
+void *sut_find(void *tree, uint64_t key, int via_const);
+void *sut_find_or_insert(void *tree, uint64_t key, uint64_t seq, int *inserted, void *rec);
+void *sut_insert(void *tree, uint64_t key, uint64_t seq, void *rec);
 void sut_erase(void *tree, uint64_t key);
 void sut_iterate(void *tree, void (*cb)(void *val, void *ctx), void *ctx);
 }
